@@ -19,65 +19,12 @@
   Core-only imports (linked into the `mdmodel` driver).
 -/
 import MdModel.Prelude
+import MdModel.ProcessCore
 import MdModel.Gen.ProcessConsts
+import MdModel.OpAnalysis
+import MdModel.ArgRecovery
 namespace MdModel.Process
 open MdModel
-
-/-! ## checked arithmetic -/
-
-namespace Outcome
-def bind {α β : Type} (x : Outcome α) (f : α → Outcome β) : Outcome β :=
-  match x with
-  | .ok a => f a
-  | .panic s => .panic s
-def isOk {α : Type} : Outcome α → Bool
-  | .ok _ => true
-  | .panic _ => false
-end Outcome
-
-instance {α : Type} [DecidableEq α] : DecidableEq (Outcome α) := fun a b =>
-  match a, b with
-  | .ok x, .ok y => if h : x = y then isTrue (by rw [h]) else isFalse (by intro e; cases e; exact h rfl)
-  | .panic s, .panic t => if h : s = t then isTrue (by rw [h]) else isFalse (by intro e; cases e; exact h rfl)
-  | .ok _, .panic _ => isFalse (by intro e; cases e)
-  | .panic _, .ok _ => isFalse (by intro e; cases e)
-
-instance : Monad Outcome where
-  pure := .ok
-  bind := Outcome.bind
-
-/-- `a + b` on `u64` in a build with overflow checks -/
-def cadd64 (site : String) (a b : Nat) : Outcome Nat :=
-  if a + b ≤ U64MAX then .ok (a + b) else .panic site
-/-- `a - b` on an unsigned type -/
-def csub (site : String) (a b : Nat) : Outcome Nat :=
-  if b ≤ a then .ok (a - b) else .panic site
-/-- `l[i]` -/
-def cidx {α : Type} (site : String) (l : List α) (i : Nat) : Outcome α :=
-  match l[i]? with
-  | some x => .ok x
-  | none => .panic site
-/-- `u64::checked_add` -/
-def checkedAdd64 (a b : Nat) : Option Nat := if a + b ≤ U64MAX then some (a + b) else none
-/-- `u32::checked_add` -/
-def checkedAdd32 (a b : Nat) : Option Nat := if a + b ≤ U32MAX then some (a + b) else none
-/-- 2^64 -/
-def TWO64 : Nat := 18446744073709551616
-/-- `u64::wrapping_sub` -/
-def wrappingSub64 (a b : Nat) : Nat := if b ≤ a then a - b else a + TWO64 - b
-/-- `u64::saturating_add` -/
-def saturatingAdd64 (a b : Nat) : Nat := if a + b ≤ U64MAX then a + b else U64MAX
-
-/-- `mapM` for `Outcome` as plain recursion -/
-def mapO {α β : Type} (f : α → Outcome β) : List α → Outcome (List β)
-  | [] => .ok []
-  | x :: xs =>
-    match f x with
-    | .panic s => .panic s
-    | .ok y =>
-      match mapO f xs with
-      | .panic s => .panic s
-      | .ok ys => .ok (y :: ys)
 
 /-! ## K1 — `/proc/<pid>/limits` (process_state.rs:164-196)
 
@@ -442,6 +389,20 @@ def argReadHead (start limit : Nat) : Nat → Outcome Nat
     | .panic s => .panic s
     | .ok h => if h < limit then cadd64 "arg_recovery: read_head += 4" h Consts.arg_pointer_width else .ok h
 
+/-- processor.rs:1125 `SystemTime::UNIX_EPOCH + Duration::from_secs(time_date_stamp as u64)`:
+    `SystemTime + Duration` is `checked_add(..).expect("overflow when adding duration to instant")`
+    on a signed 64-bit count of seconds; the result in seconds after the epoch -/
+def dumpTime (stamp : Nat) : Outcome Nat :=
+  if 0 + stamp ≤ 9223372036854775807 then .ok stamp else .panic "overflow when adding duration to instant"
+
+/-- processor.rs:245/255 the `u64` counters of the stat reporter after `n` increments from 0 -/
+def statCounter : Nat → Outcome Nat
+  | 0 => .ok 0
+  | n + 1 =>
+    match statCounter n with
+    | .panic s => .panic s
+    | .ok c => cadd64 "stats counter += 1" c 1
+
 /-- the frame bound the walk obeys (C05 `walk_bound`), evaluated on counts -/
 def boundOk (frames bytes : Nat) : Bool := decide (frames ≤ bytes + 2)
 
@@ -577,8 +538,13 @@ def splitReqs : List String → List String → List (List String)
 /-- line-protocol entry point of this model (engine: process). `kern a // b // c` answers several
     kernel requests at once (what a pipeline case asks). -/
 def handle (_engine : String) (args : List String) : String :=
+  let one (a : List String) : String :=
+    match a with
+    | "argrec" :: rest => ArgRecovery.handle rest
+    | _ => kernel a
   match args with
-  | "kern" :: rest => joinWith " // " ((splitReqs rest []).map kernel)
-  | _ => kernel args
+  | "kern" :: rest => joinWith " // " ((splitReqs rest []).map one)
+  | "opana" :: rest => OpAnalysis.handle rest
+  | _ => one args
 
 end MdModel.Process
